@@ -43,7 +43,10 @@ MCMutations == {"dupfield", "unknownref", "masknonnat", "maskforward", "bit32", 
 ---------------------------------------------------------------------------
 (* C14 *)
 Init14 == Init /\ opt \in OptRows
-Next14 == Next /\ UNCHANGED opt
+(* the option row is part of the stimulus: any schema can be paired with any row *)
+SwitchOpt == /\ Len(schema) >= 1 /\ \E o \in OptRows \ {opt} : opt' = o
+             /\ UNCHANGED <<schema, mut>>
+Next14 == (Next /\ UNCHANGED opt) \/ SwitchOpt
 
 Emit == PrintT(ToJson(<<"@@", [schema |-> schema, mut |-> mut, opt |-> opt, accepted |-> Accepted,
                               wf |-> WellFormed, tagsok |-> TagsOK, eff |-> [i \in Idx |-> Eff(i)]]>>))
